@@ -136,6 +136,8 @@ pub struct Cmp {
 #[derive(Clone, Debug, PartialEq)]
 pub enum Rhs {
     Lit(J),
+    /// literal text emitted verbatim (numeric extremes the document model cannot hold)
+    Raw(String),
     Regex(String),
     RangeInt { lo: i64, hi: i64, lo_incl: bool, hi_incl: bool },
     Query(Query),
@@ -272,6 +274,7 @@ impl Rhs {
     fn print(&self, ind: usize, out: &mut String) {
         match self {
             Rhs::Lit(j) => doc::to_guard_literal(j, out),
+            Rhs::Raw(t) => out.push_str(t),
             Rhs::Regex(r) => {
                 out.push('/');
                 out.push_str(&r.replace('/', "\\/"));
@@ -1143,7 +1146,7 @@ pub fn gen_prog(r: &mut Rng, root: &J, o: &GenOpts) -> Prog {
 fn add_adversarial(r: &mut Rng, p: &mut Prog, _root: &J) {
     let n = 1 + r.usize(3);
     for _ in 0..n {
-        let k = r.below(18);
+        let k = r.below(19);
         let name = format!("adv{}", p.rules.len() + 1);
         let q = |parts: Vec<Part>| Query { some: false, parts };
         let var = |v: &str| Part::Var(v.to_string());
@@ -1287,6 +1290,17 @@ fn add_adversarial(r: &mut Rng, p: &mut Prog, _root: &J) {
                 lines.push(Line { alts: vec![Clause::Cmp(Cmp { not: r.chance(1, 3), q: q(vec![var("subj")]), op: Op::Eq, opnot: r.chance(1, 3), rhs: Some(Rhs::Regex(re.clone())), msg: None })] });
                 lets.push(Let { name: "rx".into(), val: Arg::Func(Box::new(Func { name: "regex_replace".into(), args: vec![Arg::Query(q(vec![var("subj")])), Arg::Lit(J::Str("(a+)+$".into())), Arg::Lit(J::Str("$1$1".into()))] })) });
                 lines.push(Line { alts: vec![Clause::Cmp(Cmp { not: false, q: q(vec![var("rx")]), op: Op::Exists, opnot: false, rhs: None, msg: None })] });
+            }
+            17 => {
+                // numeric literals at and beyond the edges of i64 / f64
+                let lit = (*r.pick(&["1e+999", "1e+309", "9.9e+400", "1e-999", "9223372036854775807", "0.1e+1", "1.7976931348623157e+308", "123456789.123456789e+300"])).to_string();
+                let key = (*r.pick(doc::KEYS)).to_string();
+                let op = *r.pick(&[Op::Eq, Op::Gt, Op::Le, Op::In]);
+                if op == Op::In {
+                    lines.push(Line { alts: vec![Clause::Cmp(Cmp { not: false, q: q(vec![Part::Key(key)]), op, opnot: false, rhs: Some(Rhs::Raw(format!("[{lit}, 1]"))), msg: None })] });
+                } else {
+                    lines.push(Line { alts: vec![Clause::Cmp(Cmp { not: false, q: q(vec![Part::Key(key)]), op, opnot: false, rhs: Some(Rhs::Raw(lit)), msg: None })] });
+                }
             }
             16 => {
                 // a variable defined in terms of itself (directly, mutually, or through a function)
